@@ -244,3 +244,57 @@ def _(repo):
     okh = ("jnp.split(hyper_output, self.pinn_params_cumsum[:-1])" in h and "lambda p: tree_leaves(p, is_leaf=eqx.is_array)" in h and "lambda a, b: a.reshape(b.shape)" in h)
     return (f"Definition gen_hyper_eval_pipeline : bool := {'true' if ok else 'false'}.\n"
             f"Definition gen_hyper_split_in_leaf_order : bool := {'true' if okh else 'false'}.")
+
+
+# =============================================================== boundary term (C04), in G_reduce
+BC = "jinns/loss/_boundary_conditions.py"
+
+
+@anchor("G_reduce", "facet_reduce")
+def _(repo):
+    """boundary_condition_apply: each facet contributes jnp.mean(loss_weight * <per-point squared mismatch>),
+    a facet whose condition is None is skipped, the facets are summed"""
+    f = find_func(parse(repo, LU), "boundary_condition_apply")
+    lams = [l for l in lambdas(f) if "_compute_boundary_loss" in ast.unparse(l.body)]
+    if len(lams) != 2:
+        raise Untranslatable("expected the per-facet-dictionary and the global lambda")
+    out = []
+    skipped = False
+    for l in sorted(lams, key=lambda l: l.lineno):
+        body = l.body
+        if isinstance(body, ast.IfExp):
+            skipped = ast.unparse(body.test) == "c is None" and ast.unparse(body.body) == "None"
+            body = body.orelse
+        call = one([n for n in ast.walk(body) if isinstance(n, ast.Call) and ast.unparse(n.func) == "_compute_boundary_loss"], "_compute_boundary_loss call")
+        out.append(tx(body, {ast.unparse(call): 0, "loss_weight": 1}))
+    src = ast.unparse(f)
+    summed = "jax.tree_util.tree_reduce(lambda x, y: x + y, jax.tree_util.tree_leaves(b_losses_by_facet))" in src and ast.unparse(one(returns(f), "return")) == "mse_boundary_loss"
+    return ("(* inputs: 0 = per-point squared mismatch on the facet, 1 = loss_weight *)\n"
+            f"Definition gen_facet_reduce_dict : tx := {out[0]}.\n"
+            f"Definition gen_facet_reduce_global : tx := {out[1]}.\n"
+            f"Definition gen_facet_none_is_skipped : bool := {'true' if skipped else 'false'}.\n"
+            f"Definition gen_facets_are_summed : bool := {'true' if summed else 'false'}.")
+
+
+@anchor("G_reduce", "dirichlet_reduce")
+def _(repo):
+    """pointwise networks: per border point, the sum over the selected components of (u - f)^2"""
+    out = []
+    for fn, ucall, fcall in (("boundary_dirichlet_statio", "u(dx, params)[dim_to_apply]", "f(dx)"),
+                             ("boundary_dirichlet_nonstatio", "u(t, dx, params)[dim_to_apply]", "f(t, dx)")):
+        f = find_func(parse(repo, BC), fn)
+        vs = branch_assigns(f, "mse_u_boundary")
+        lam = one([l for l in lambdas(f) if ucall in ast.unparse(l.body)], "mismatch lambda of " + fn)
+        mism = tx(lam.body, {ucall: 0, fcall: 1})
+        expr = vs[0]
+        env9 = {}
+        calls = [ast.unparse(n) for n in ast.walk(expr) if isinstance(n, ast.Call) and ast.unparse(n.func) == "v_u_boundary"]
+        if len(set(calls)) == 1:
+            env9 = {calls[0]: 9}
+        else:
+            rs = [ast.unparse(v) for v in branch_assigns(f, "res")]
+            if not rs or not rs[0].startswith("v_u_boundary("):
+                raise Untranslatable("mismatch rows not found in " + fn)
+            env9 = {"res": 9}
+        out.append(f"Definition gen_{fn[9:]}_reduce : tx := {tx(expr, env9).replace('(XIn 9)', mism)}.")
+    return "(* inputs: 0 = u at the border points restricted to the selected components, 1 = f at the border points *)\n" + "\n".join(out)
